@@ -139,7 +139,7 @@ class NameDatabase:
         if id(value) in self.names:
             return self.names[id(value)]
         name = getattr(value, "__name__", self.default_name)
-        if not re.match(string=name, pattern=r"[a-zA-Z_][a-zA-Z0-9_]+"):
+        if not re.fullmatch(string=name, pattern=r"[a-zA-Z_][a-zA-Z0-9_]*"):
             name = self.default_name
         name = self.gensym(name)
         self.variables[name] = value
